@@ -609,8 +609,8 @@ theorem bitfield_eq_equivalence {w : Nat} : IsEquivalence (C10.eq (w := w)) :=
   LawfulEq.isEquivalence (fun a b => by simp [C10.eq])
 theorem bitfield_ne_eq_not {w : Nat} (a b : C10.Words w) : C10.ne a b = !C10.eq a b := rfl
 /-- `==` on computed bitfields is equality of the denoted sets (padding never matters) -/
-theorem bitfield_eq_iff_components {w : Nat} (hw : 0 < w) (n : Nat) (e₁ e₂ : C10.Expr) (h₁ : e₁.Valid n) (h₂ : e₂.Valid n) :
-    C10.eq (e₁.eval n w) (e₂.eval n w) = true ↔ ∀ i, i < n → e₁.den i = e₂.den i :=
+theorem bitfield_eq_iff_components {w : Nat} (hw : 0 < w) (n : Nat) (e₁ e₂ : C10.Expr w) (h₁ : e₁.Valid n) (h₂ : e₂.Valid n) :
+    C10.eq (e₁.eval n) (e₂.eval n) = true ↔ ∀ i, i < n → e₁.den i = e₂.den i :=
   C10.eq_iff_same_set hw n e₁ e₂ h₁ h₂
 theorem bitfield_hash_eq_of_eq {w : Nat} (hc : Nat → Nat → Nat) (hwd : BitVec w → Nat) (a b : C10.Words w)
     (h : C10.eq a b = true) : C10.hash hc hwd a = C10.hash hc hwd b := by
@@ -655,7 +655,7 @@ example : Rec.eq (fun a b : Int => a == b) [(0, 4), (1, 7)] [(1, 7), (0, 4)] = s
 example : Rec.eq (fun a b : Int => a == b) [(0, 4), (1, 7)] [(2, 7), (0, 4)] = none := by decide
 -- bitfield: ~{e0,e2} and {e1} are the same value, hence hash equally (the defect fixed in 2bd4a8e: the
 -- unmasked complement was a different array)
-example : C10.eq ((C10.Expr.not (.lit [0, 2])).eval 3 8) ((C10.Expr.lit [1]).eval 3 8) = true := by decide
-example : C10.eq (((C10.Expr.lit [0, 2]).eval 3 8).map (~~~ ·)) ((C10.Expr.lit [1]).eval 3 8) = false := by decide
+example : C10.eq ((C10.Expr.not (.lit [0, 2]) : C10.Expr 8).eval 3) ((C10.Expr.lit [1] : C10.Expr 8).eval 3) = true := by decide
+example : C10.eq (((C10.Expr.lit [0, 2] : C10.Expr 8).eval 3).map (~~~ ·)) ((C10.Expr.lit [1] : C10.Expr 8).eval 3) = false := by decide
 
 end Fcppt.C17
